@@ -87,27 +87,35 @@ def check(run: Run) -> None:
             n_tests += 1
             kinds.add(what)
             run.check(t == visited, "C14.R2", fi, stmt_of(n), f"dispatch test for {what} is made on the visited value", f"{name} tests for {what} on the un-visited {show(t)}: a value that only becomes {what} after substitution (an argument bound to a tuple/dict/First() in an earlier stage) is not projected / pushed through", f"test self.visit(node.{attr_of_value})", show(t), key=f"dispatch test for {what} on the un-visited node.{attr_of_value}")
+        if name == "visit_Subscript":
+            from ..visitors import projection_handlers
+
+            _hm, table_tests = projection_handlers(m, ctx, cls, fi)
+            for subj_t, what, c_ in table_tests:
+                n_tests += 1
+                kinds.add(what)
+                run.check(subj_t == visited, "C14.R2", fi, stmt_of(c_), f"dispatch test for {what} is made on the visited value", f"{name} looks {what} up by the type of the un-visited value")
         run.floor("C14.R2", n_tests, 2 if name == "visit_Attribute" else 4, f"dispatch tests in {name}")
         run.notes.setdefault("dispatch_kinds", {})[name] = sorted(kinds)
 
     # ---------------- R3
     vs = cls.methods["visit_Subscript"]
-    fa = ctx.analysis(vs)
-    nodep = ("param", vs.pos_params[1])
-    V = ("visit", ("attr", nodep, "value"))
-    have = {}
-    for s, n in fa.returns():
-        t = strip_sites(fa.term_of(s.value, n))
-        fx = Facts(fa, s)
-        for k in ("ast.Tuple", "ast.List", "ast.Dict"):
-            if fx.isinstance_of(V, {k}):
-                alts = unphi_terms(t)
-                sel = [a for a in alts if a[0] == "app" and a[1] == ("global", "copy.deepcopy")]
-                field = "values" if k == "ast.Dict" else "elts"
-                good = [a for a in sel if a[2] and a[2][0][0] == "subscript" and a[2][0][1] == ("attr", V, field)]
-                have[k] = have.get(k, False) or bool(good)
+    from ..visitors import projection_handlers
+
+    hmap, _t = projection_handlers(m, ctx, cls, vs)
     for k in ("ast.Tuple", "ast.List", "ast.Dict"):
-        run.check(have.get(k, False), "C14.R3", vs, vs.node, f"Subscript of a {k} literal returns (a copy of) the selected element", f"no path of visit_Subscript projects an element out of a {k} literal")
+        good = False
+        if k in hmap:
+            h = hmap[k][0]
+            fh = ctx.analysis(h)
+            vp = ("param", h.pos_params[1])
+            field = "values" if k == "ast.Dict" else "elts"
+            for s_, n_ in fh.returns():
+                t = strip_sites(fh.term_of(s_.value, n_)) if s_.value is not None else ("const", None)
+                for a in unphi_terms(t):
+                    if a[0] == "app" and a[1] == ("global", "copy.deepcopy") and a[2] and a[2][0][0] == "subscript" and a[2][0][1] == ("attr", vp, field):
+                        good = True
+        run.check(good, "C14.R3", vs, vs.node, f"Subscript of a {k} literal returns (a copy of) the selected element", f"no path of visit_Subscript projects an element out of a {k} literal")
     va = cls.methods["visit_Attribute"]
     fa2 = ctx.analysis(va)
     nodea = ("param", va.pos_params[1])
